@@ -366,14 +366,17 @@ func main() {
 		"<= 16, else a sample with both extremes) as request and as response; degenerate files (83 fixed lexical shapes: no " +
 		"document, null document, {}, [], scalars, markers, BOMs, tabs, control bytes; 13 two-document shapes; random compositions " +
 		"of 1-4 degenerate lines; null-valued keys) as the only / an additional file of flows/, quotas/, path_params/, the processor " +
-		"definitions and as gateway configuration file, the lexical ones through the model's scanner and file loader (suite files); " +
+		"definitions and as gateway configuration file, the lexical ones through the model's scanner and file loader (suite files); 20 valid quota documents written as raw bytes " +
+		"(comments, blank lines, markers, BOM, CR LF, a second document around them) next to a flow whose Limiter names the quota, " +
+		"alone / two files / next to a rendered or a document-less quota file, through the scanner (left to the decoder), the quota stage " +
+		"and quota_defined (suite files, table qdec); " +
 		"header blocks textproto.ReadMIMEHeader refuses (line without colon, leading space / tab, stray CR, empty or invalid name, control " +
 		"and non-ASCII bytes, no final newline; 38 fixed + random compositions) next to well-formed ones, through the gateway's SPOE entry " +
 		"(routing.processRequest / processResponse) against one accepted flow per processor of the zoo in which it runs on a request, on a " +
 		"response with / without the captured request and after an early response, and a chain of mutating processors; every block " +
 		"through utils.ParseHeaders and the model's scanner (suite hdrs).  distinct = distinct (configuration, observed " +
 		"verdict) resp. (configuration, selection, headers, observed events); non-trivial = load: accepted or rejected by " +
-		"the graph stage; txn: >= 2 processors ran or the hand-over continuation ran; files: a non-empty file the scanner decides; hdrs: a block the scanner calls refused")
+		"the graph stage; txn: >= 2 processors ran or the hand-over continuation ran; files: a non-empty file the scanner decides, or a byte-level quota file with content whose decoded document the case carries; hdrs: a block the scanner calls refused")
 
 	var k Case
 	if _, ok := o.ReplayCase(&k); ok {
